@@ -2352,7 +2352,8 @@ func (n Nexthop) encode(version uint8, software Software, processFlag nexthopPro
 		buf = append(buf, n.rmac[:]...)
 	}
 	// added in frr7.5 (Color for Segment Routing TE.)
-	if message&messageSRTE > 0 && (version == 6 && software.name == "frr" && software.version >= 7.5) {
+	// (the SRTE bit is 0x100 in frr7.5 and 0x200 from frr8 on: compare the flavour's value)
+	if message&messageSRTE.ToEach(version, software) > 0 && (version == 6 && software.name == "frr" && software.version >= 7.5) {
 		tmpbuf := make([]byte, 4)
 		binary.BigEndian.PutUint32(tmpbuf, n.srteColor)
 		buf = append(buf, tmpbuf...) // frr: stream_putl(s, api_nh->srte_color);
@@ -2501,7 +2502,7 @@ func (n *Nexthop) decode(data []byte, version uint8, software Software, family u
 		offset += 6
 	}
 	// added in frr7.5 (Color for Segment Routing TE.)
-	if message&messageSRTE > 0 &&
+	if message&messageSRTE.ToEach(version, software) > 0 &&
 		(version == 6 && software.name == "frr" && software.version >= 7.5) {
 		if len(data) < offset+4 {
 			return 0, fmt.Errorf("lack of bytes for srte_color. need 4 but %d", len(data)-offset)
@@ -3405,7 +3406,7 @@ func (b *NexthopUpdateBody) serialize(version uint8, software Software) ([]byte,
 		return nil, fmt.Errorf("invalid address family: %d", b.Prefix.Family)
 	}
 	// SRTE color // if (srte_color) stream_putl(s, srte_color);
-	if b.Message&messageSRTE > 0 { // since frr 7.5
+	if b.Message&messageSRTE.ToEach(version, software) > 0 { // since frr 7.5
 		tmpbuf := make([]byte, 4)
 		binary.BigEndian.PutUint32(tmpbuf, b.srteColor)
 		buf = append(buf, tmpbuf...)
@@ -3481,7 +3482,7 @@ func (b *NexthopUpdateBody) decodeFromBytes(data []byte, version uint8, software
 	b.Prefix.Prefix = ipFromFamily(b.Prefix.Family, data[offset:offset+addrByteLen])
 	offset += addrByteLen
 
-	if b.Message&messageSRTE > 0 { // since frr 7.5
+	if b.Message&messageSRTE.ToEach(version, software) > 0 { // since frr 7.5
 		if len(data) < offset+4 {
 			return errors.New("invalid message length: missing srteColor(4 bytes)")
 		}
